@@ -261,6 +261,9 @@ def main(argv):
     known = load_known(pid)
     viols = [r for r in results if r["status"] == "violation"]
     bad = [r for r in results if r["status"] in ("inconclusive", "harness_error", "premise")]
+    skipped = [r for r in results if r["status"] == "skipped"]
+    if len(skipped) * 4 > len(results):  # the property could not be evaluated on too many runs
+        bad += skipped[:3]
     for r in bad[:5]:
         harness_msgs.append(f"run {r['index']}: {r['status']}: {r['violation'].get('detail')}")
         if r["violation"].get("traceback"):
@@ -353,6 +356,6 @@ def main(argv):
     nok = sum(1 for r in results if r["status"] == "ok")
     cyc = sum(r["cycles"] for r in results)
     print(f"{pid}: runs={len(results)} ok={nok} violations={len(viols)} (unlisted classes={len(classes)}, "
-          f"known={sum(known_hits.values())}) other={len(bad)} cycles={cyc} wall={wall:.1f}s "
+          f"known={sum(known_hits.values())}) skipped={len(skipped)} other={len(bad)} cycles={cyc} wall={wall:.1f}s "
           f"determinism={det['checked'] - det['mismatches']}/{det['checked']} exit={exit_code}")
     return exit_code
